@@ -172,7 +172,7 @@ Ltac vs_reify VS env e :=
 Ltac rk_scalar :=
   cbn [T zero one add sub mul dvd ofZ Rops coef Nat.eqb] in *;
   unfold Q2R; cbn [Qnum Qden];
-  first [ reflexivity | lra | field | (field_simplify; lra) | nra ].
+  first [ reflexivity | lra | (field; lra) ].
 
 (* decide a linear identity between vector expressions whose atoms are syntactically equal *)
 Ltac vs_ring :=
@@ -215,13 +215,19 @@ Ltac rk_eq :=
           rk_eq ]
   end
 with rk_atom :=
+  (* two evaluations of the SAME function: compare the arguments (a variable against an application,
+     or different functions, is a failure - this also guarantees termination) *)
   first
     [ reflexivity
-    | f_equal;
-      lazymatch goal with
-      | |- @eq (vcar _) _ _ => rk_eq
-      | |- _ => rk_scalar
-      end ].
+    | lazymatch goal with
+      | |- ?f ?a1 ?a2 = ?f ?b1 ?b2 => apply f_equal2; rk_arg
+      | |- ?f ?a = ?f ?b => apply f_equal; rk_arg
+      end ]
+with rk_arg :=
+  lazymatch goal with
+  | |- @eq (vcar _) _ _ => rk_eq
+  | |- _ => rk_scalar
+  end.
 
 (* ========================================================================================= *)
 (* 3. the documented iterators are the Runge-Kutta steps of the two tableaus                  *)
@@ -397,6 +403,55 @@ Lemma euler_doc_product t (x : prodVS A B) h :
   Euler_doc (prodVS A B) pair_rhs t x h = (Euler_doc A fa t (fst x) h, Euler_doc B fb t (snd x) h).
 Proof. destruct x as [a b]. reflexivity. Qed.
 End Product.
+
+(* ========================================================================================= *)
+(* 7. nonlinear right-hand sides: explicit defects of fifth order                              *)
+(* ========================================================================================= *)
+(* y' = c t y (time and state multiply; the exact solution is y0 exp(c (t^2 - t0^2) / 2)):
+   derivatives of the solution by Leibniz' rule, d_{k+1} = k c d_{k-1} + c t d_k *)
+Definition ty_derivs (c t y : R) : list R :=
+  let d1 := c * t * y in
+  let d2 := c * y + c * t * d1 in
+  let d3 := 2 * c * d1 + c * t * d2 in
+  let d4 := 3 * c * d2 + c * t * d3 in
+  [d1; d2; d3; d4].
+Definition ty_defect (c t y h : R) : R :=
+  c ^ 3 * y * (c * h ^ 2 * t + 5 * c * h * t ^ 2 + 8 * c * t ^ 3 + 2 * h + 12 * t) / 96.
+
+Lemma rk4_doc_ty (c t h y : R) :
+  RK4_doc Rvs (fun t y => c * t * y) t y h = taylor y (ty_derivs c t y) h + h ^ 5 * ty_defect c t y h.
+Proof. unfold ty_derivs, ty_defect. rk_unfold. field. Qed.
+
+Lemma euler_doc_ty (c t h y : R) :
+  Euler_doc Rvs (fun t y => c * t * y) t y h =
+  taylor y (firstn 2 (ty_derivs c t y)) h - h ^ 2 * (nth 1 (ty_derivs c t y) 0 / 2).
+Proof. unfold ty_derivs. cbv zeta. cbn [firstn nth]. rk_unfold. field. Qed.
+
+(* y' = r y (1 - y) (autonomous, nonlinear): derivatives of the solution d_{k+1} = (d d_k / dy) d_1;
+   the defect against the degree-4 Taylor polynomial is h^5 times an explicit polynomial
+   (computed with a computer algebra system, verified here by [ring]) *)
+Definition logistic_derivs (r y : R) : list R :=
+  [r * y * (1 - y);
+   r ^ 2 * (2 * y ^ 3 - 3 * y ^ 2 + y);
+   r ^ 3 * (-6 * y ^ 4 + 12 * y ^ 3 - 7 * y ^ 2 + y);
+   r ^ 4 * (24 * y ^ 5 - 60 * y ^ 4 + 50 * y ^ 3 - 15 * y ^ 2 + y)].
+Definition logistic_defect (r y h : R) : R :=
+  h ^ 10 * (r ^ 15 * ((-1) * y ^ 16 + 8 * y ^ 15 + (-28) * y ^ 14 + 56 * y ^ 13 + (-70) * y ^ 12 + 56 * y ^ 11 + (-28) * y ^ 10 + 8 * y ^ 9 + (-1) * y ^ 8) / 24576) +
+  h ^ 9 * (r ^ 14 * (2 * y ^ 15 + (-15) * y ^ 14 + 49 * y ^ 13 + (-91) * y ^ 12 + 105 * y ^ 11 + (-77) * y ^ 10 + 35 * y ^ 9 + (-9) * y ^ 8 + 1 * y ^ 7) / 3072) +
+  h ^ 8 * (r ^ 13 * ((-14) * y ^ 14 + 98 * y ^ 13 + (-297) * y ^ 12 + 508 * y ^ 11 + (-535) * y ^ 10 + 354 * y ^ 9 + (-143) * y ^ 8 + 32 * y ^ 7 + (-3) * y ^ 6) / 3072) +
+  h ^ 7 * (r ^ 12 * (30 * y ^ 13 + (-195) * y ^ 12 + 544 * y ^ 11 + (-847) * y ^ 10 + 800 * y ^ 9 + (-465) * y ^ 8 + 160 * y ^ 7 + (-29) * y ^ 6 + 2 * y ^ 5) / 1536) +
+  h ^ 6 * (r ^ 11 * ((-94) * y ^ 12 + 564 * y ^ 11 + (-1436) * y ^ 10 + 2010 * y ^ 9 + (-1671) * y ^ 8 + 828 * y ^ 7 + (-230) * y ^ 6 + 30 * y ^ 5 + (-1) * y ^ 4) / 1536) +
+  h ^ 5 * (r ^ 10 * (58 * y ^ 11 + (-319) * y ^ 10 + 735 * y ^ 9 + (-915) * y ^ 8 + 660 * y ^ 7 + (-273) * y ^ 6 + 59 * y ^ 5 + (-5) * y ^ 4) / 384) +
+  h ^ 4 * (r ^ 9 * ((-114) * y ^ 10 + 570 * y ^ 9 + (-1175) * y ^ 8 + 1280 * y ^ 7 + (-782) * y ^ 6 + 260 * y ^ 5 + (-41) * y ^ 4 + 2 * y ^ 3) / 384) +
+  h ^ 3 * (r ^ 8 * (186 * y ^ 9 + (-837) * y ^ 8 + 1520 * y ^ 7 + (-1414) * y ^ 6 + 702 * y ^ 5 + (-173) * y ^ 4 + 16 * y ^ 3) / 384) +
+  h ^ 2 * (r ^ 7 * ((-131) * y ^ 8 + 524 * y ^ 7 + (-824) * y ^ 6 + 638 * y ^ 5 + (-247) * y ^ 4 + 42 * y ^ 3 + (-2) * y ^ 2) / 192) +
+  h ^ 1 * (r ^ 6 * (80 * y ^ 7 + (-280) * y ^ 6 + 370 * y ^ 5 + (-225) * y ^ 4 + 60 * y ^ 3 + (-5) * y ^ 2) / 96) +
+  h ^ 0 * (r ^ 5 * ((-23) * y ^ 6 + 69 * y ^ 5 + (-74) * y ^ 4 + 33 * y ^ 3 + (-5) * y ^ 2) / 24).
+
+Lemma rk4_doc_logistic (r t h y : R) :
+  RK4_doc Rvs (fun _ y => r * y * (1 - y)) t y h =
+  taylor y (logistic_derivs r y) h + h ^ 5 * logistic_defect r y h.
+Proof. unfold logistic_derivs, logistic_defect. rk_unfold. field. Qed.
 
 Lemma classic4_stage_times (t h : R) : stage_times classic4 t h = [t; t + h / 2; t + h / 2; t + h].
 Proof.
